@@ -151,6 +151,17 @@ impl OovSpace {
         // ---- observation
         let r = catch(|| {
             let mut tok = StatefulTokenizer::new(dict.clone(), Mode::C);
+            // the tokenizer and its buffers are used the usual way: reused.  Two earlier texts with
+            // long class runs (collected, so that both internal buffers have been through them)
+            {
+                let mut warm = MorphemeList::empty(dict.clone());
+                for wtext in ["zzzzzz漢漢漢アアア", "zzzzzz漢漢漢アアア", "111"] {
+                    tok.reset().push_str(wtext);
+                    if tok.do_tokenize().is_ok() {
+                        let _ = warm.collect_results(&mut tok);
+                    }
+                }
+            }
             tok.reset().push_str(text);
             let res = tok.do_tokenize().map_err(|e| classify_err(&e));
             let buf = tok.verif_input();
